@@ -1,24 +1,27 @@
-"""Correspondence check for the `lowerstmt` component (C01_partial: statements of a core fragment).
+"""Correspondence check for the `lowerstmt` component (C01: statements, functions, whole programs of
+a core fragment).
 
-Ties the Coq model of hidc's gen_stmts / gen_block on the fragment F_stmt
-(coq/Codegen/LowerStmtModel.v, extracted through coq/Extract/ExtractLowerStmt.v, driven by
-ocaml/hidlowerstmt.ml) TEXTUALLY to the real compiler.
+Ties the Coq model of hidc's code generator on the fragment F_stmt (coq/Codegen/LowerStmtModel.v:
+gen_lines / gen_func / gen_stmts / gen_block / eval_func_call, extracted through
+coq/Extract/ExtractLowerStmt.v, driven by ocaml/hidlowerstmt.ml) TEXTUALLY to the real compiler.
 
-A random F_stmt program is a body for
+A random F_stmt program is
 
-    empty @is_you(int a, int b, int c) { ... }
+    empty @is_you(int a0, int a1, int a2) { ... }      int f1(int p0, ..) { ... }   empty f2(..) { ... }  ...
 
-built from int / bool declarations, assignments and compound assignments, write(<byte>),
-writeln(), if / else (if), while, for, break, continue and nested blocks with their own (possibly
-shadowing) locals; expressions come from the int-operand / boolean fragment of `lowerbool`.
-The real front end type-checks it; the CHECKED tree of the function body is turned into the
-model's input (so constant folding, truncation of unreachable statements, the for-loop desugaring
-and the resolution of names are the front end's); hidc compiles it (checked build) at each word
-size; the text of the function from the label after the entry guard to the end of the function
-(statements and the implicit return), comment lines dropped, is compared LINE BY LINE, labels
-included, with `print_aline` of the model's `lower_body`.  The constant of the entry stack guard
-(`hgeu [r1], N`) is compared with the model's `need_stmts` (the maximum frame offset, which is
-the stack-room hypothesis of the theorems).
+whose bodies are built from int / bool declarations, assignments and compound assignments,
+divisions `x = a / b`, `x %= b` (checked build: division guard), calls of the program's functions
+(recursion included) as statements, initialisers and right-hand sides, `return;` / `return e;`,
+write(<byte>), write / writeln of ints and bools (runtime library), writeln(), if / else (if),
+while, for, break, continue and nested blocks with their own locals; expressions come from the
+int-operand / boolean fragment of `lowerbool`.  The real front end type-checks the program; the
+CHECKED trees of the function bodies are turned into the model's input (so constant folding,
+truncation of unreachable statements, the for-loop desugaring, the appended `return;` and the
+resolution of names are the front end's); hidc compiles it (checked build) at each word size; the
+WHOLE OUTPUT from `%section state` to the start of the runtime library -- state section, every
+function in generation order with its label, entry stack guard (constant included), statements
+and returns; comment lines dropped -- is compared LINE BY LINE, labels included, with the model's
+`state_section` and `lower_program`.
 
 Stand-alone:  python tools/corr_lowerstmt.py --tier quick --seed 0
 """
@@ -29,13 +32,16 @@ from common import REPO, VERIF, CannotTranslate, write_if_changed
 COQ_DEPS = ['Sphinx/Machine.vo', 'Sphinx/AsmText.vo', 'Sphinx/WordLemmas.vo', 'Gen/GenTables.vo', 'Gen/GenEscape.vo',
             'Codegen/OpTables.vo']
 COQ_FILES = ['Codegen/LowerBoolModel.v', 'Codegen/LowerStmtModel.v', 'Extract/ExtractLowerStmt.v']
-RULE = ('for every generated F_stmt function body and word size, the text hidc emits for the function after its '
-        'entry guard (all statements and the implicit return; comments dropped) equals, line for line and label '
-        'for label, print_aline of the extracted Coq model lower_body run on the checked tree of the body, and '
-        'the constant of the entry stack guard equals the model\'s need_stmts')
+RULE = ('for every generated F_stmt program and word size, the text hidc emits from `%section state` to the start '
+        'of the runtime library (state section; every generated function in generation order: label, entry stack '
+        'guard with its constant, statements, returns; comments dropped) equals, line for line and label for label, '
+        'print_dline of the extracted Coq model state_section followed by print_aline of lower_program run on the '
+        'checked trees of the function bodies')
+STACK = 64
 
 CMP = {'lt': '<', 'gt': '>', 'le': '<=', 'ge': '>=', 'eq': '==', 'ne': '!='}
 AOPS = {'add': '+', 'sub': '-', 'mul': '*'}
+DOPS = {'div': '/', 'mod': '%'}
 GRID = [0, 1, -1, 2, 3, 5, 10, 127, 128, -128, 255, 256, 32767, 32768, -32768, -32769, 65535, 65536, 2147483647, -2147483648]
 CHARS = [chr(c) for c in range(32, 127) if chr(c) not in "'\\"] + ['\\n', "\\'", '\\\\']
 
@@ -46,13 +52,46 @@ CHARS = [chr(c) for c in range(32, 127) if chr(c) not in "'\\"] + ['\\n', "\\'",
 #   ('write', ('chr', text) | ('lit', z) | ('byte', A)) ('writeln',)
 #   ('if', E, [S], [S] | None) ('while', E, [S]) ('for', S | None, E | None, S | None, [S])
 #   ('block', [S]) ('break',) ('continue',)
+#   ('decldiv', name, op, A, A) ('assdiv', name, op, A, A) ('incdiv', name, op, A)
+#   ('call', None | ('decl', name) | ('assign', name), fname, [A])  ('return', A | None)
+# a program: [(name, 'int' | 'empty', [param names], [S])], the entry point first
 # A ::= ('v', name) | ('n', z) | ('ar', op, A, A) | ('un', 'neg'|'pos', A)
 # E ::= ('lit', bool) | ('bv', name) | ('cmp', op, A, A) | ('not', E) | ('and', E, E) | ('or', E, E)
+def has_var(a):
+    return a[0] == 'v' or any(has_var(x) for x in a[1:] if isinstance(x, tuple))
+
+
 class Gen:
-    def __init__(self, rng, maxdepth):
+    def __init__(self, rng, maxdepth, sigs=(), ret=None):
         self.rng = rng
         self.maxdepth = maxdepth
         self.n = 0
+        self.sigs = list(sigs)          # callable functions: (name, 'int' | 'empty', number of parameters)
+        self.ret = ret                  # None: no return statements; 'int' / 'empty': kind of the function
+
+    def call(self, ints, bools, allow_decl):
+        name, rt, np = self.rng.choice(self.sigs)
+        args = [self.opd(ints, 1) for _ in range(np)]
+        r = self.rng.random()
+        if rt == 'int' and allow_decl and r < 0.4:
+            x = self.fresh('x')
+            return ('call', ('decl', x), name, args), ints + [x], bools
+        if rt == 'int' and r < 0.75:
+            return ('call', ('assign', self.rng.choice(ints)), name, args), ints, bools
+        return ('call', None, name, args), ints, bools
+
+    def division(self, ints, bools, allow_decl):
+        op = self.rng.choice(list(DOPS))
+        r = self.rng.random()
+        a, b = self.opd(ints, 1), self.opd(ints, 1)
+        if not has_var(a) and not has_var(b):                # the front end folds constants and rejects <const> / 0
+            b = ('n', self.rng.choice([g for g in GRID if g != 0]))
+        if allow_decl and r < 0.4:
+            x = self.fresh('x')
+            return ('decldiv', x, op, a, b), ints + [x], bools
+        if r < 0.75:
+            return ('assdiv', self.rng.choice(ints), op, a, b), ints, bools
+        return ('incdiv', self.rng.choice(ints), op, b), ints, bools
 
     def fresh(self, prefix):
         self.n += 1
@@ -64,7 +103,7 @@ class Gen:
             return ('ar', self.rng.choice(list(AOPS)), self.opd(ints, depth - 1), self.opd(ints, depth - 1))
         if depth > 0 and r < 0.26:
             return ('un', 'neg' if self.rng.random() < 0.7 else 'pos', self.opd(ints, depth - 1))
-        if r < 0.72:
+        if ints and r < 0.72:
             return ('v', self.rng.choice(ints))
         return ('n', self.rng.choice(GRID))
 
@@ -83,12 +122,22 @@ class Gen:
 
     def simple(self, ints, bools, allow_decl=True):
         """one statement without control flow -> (stmt, ints', bools')"""
+        if not ints:                                         # a function without parameters: start with a local
+            if not allow_decl:
+                return ('writeln',), ints, bools
+            name = self.fresh('x')
+            return ('decli', name, self.opd(ints)), ints + [name], bools
+        r = self.rng.random()
+        if self.sigs and r < 0.14:
+            return self.call(ints, bools, allow_decl)
+        if r < 0.22:
+            return self.division(ints, bools, allow_decl)
         r = self.rng.random()
         if allow_decl and r < 0.18:
             name = self.fresh('x')                       # (hidc rejects shadowing: no redeclaration)
             return ('decli', name, self.opd(ints)), ints + [name], bools
         if allow_decl and r < 0.28:
-            name = self.fresh('p')
+            name = self.fresh('q')
             return ('declb', name, self.bexp(ints, bools, self.rng.randint(0, 2))), ints, bools + [name]
         if r < 0.5:
             return ('assi', self.rng.choice(ints), self.opd(ints)), ints, bools
@@ -98,7 +147,11 @@ class Gen:
             return ('assb', self.rng.choice(bools), self.bexp(ints, bools, self.rng.randint(0, 2))), ints, bools
         if r < 0.95:
             k = self.rng.random()
-            if k < 0.4:
+            if k < 0.22:
+                return ('writei', self.rng.random() < 0.4, self.opd(ints)), ints, bools
+            if k < 0.36:
+                return ('writeb', self.rng.random() < 0.4, self.bexp(ints, bools, self.rng.randint(0, 2))), ints, bools
+            if k < 0.55:
                 return ('write', ('chr', self.rng.choice(CHARS))), ints, bools
             if k < 0.5:
                 return ('write', ('lit', self.rng.choice([0, 1, 65, 127, 128, 255]))), ints, bools
@@ -126,7 +179,7 @@ class Gen:
                     init, i2 = ('decli', name, self.opd(ints)), ints + [name]
                 cond = self.bexp(i2, b2, 1) if self.rng.random() < 0.9 else None
                 cont = None
-                if self.rng.random() < 0.85:
+                if i2 and self.rng.random() < 0.85:
                     cont = ('inc', self.rng.choice(i2), self.rng.choice(['add', 'sub']), self.opd(i2, 1))
                 out.append(('for', init, cond, cont, self.block(i2, b2, depth - 1, True, 3)))
             elif depth > 0 and r < 0.37:
@@ -134,13 +187,31 @@ class Gen:
             elif in_loop and r < 0.43:
                 out.append((self.rng.choice(['break', 'continue']),))
                 break                                                   # nothing reachable follows
+            elif self.ret and r < 0.47:
+                out.append(('return', self.opd(ints, 1) if self.ret == 'int' else None))
+                break
             else:
                 s, ints, bools = self.simple(ints, bools)
                 out.append(s)
         return out
 
-    def program(self):
-        return self.block(['a', 'b', 'c'], [], self.maxdepth, False, 7)
+    def body(self, params, maxlen=7):
+        ss = self.block(list(params), [], self.maxdepth, False, maxlen)
+        if self.ret == 'int' and not (ss and ss[-1][0] == 'return'):
+            ss.append(('return', self.opd(list(params), 1)))
+        return ss
+
+
+def gen_program(rng, maxdepth):
+    """the entry point and 0..3 helper functions f1.. (any of them may call any helper)"""
+    nf = rng.choice([0, 0, 1, 2, 2, 3])
+    sigs = [('f%d' % k, rng.choice(['int', 'int', 'empty']), rng.randint(0, 3)) for k in range(1, nf + 1)]
+    prog = [('is_you', 'empty', ['a0', 'a1', 'a2'],
+             Gen(rng, maxdepth, sigs, rng.choice([None, 'empty'])).body(['a0', 'a1', 'a2']))]
+    for (name, rt, np) in sigs:
+        params = ['p%d' % i for i in range(np)]
+        prog.append((name, rt, params, Gen(rng, max(1, maxdepth - 1), sigs, rt).body(params, 5)))
+    return prog
 
 
 def opd_src(a):
@@ -187,6 +258,23 @@ def simple_src(s):
         return 'write(%s is byte)' % opd_src(x[1])
     if k == 'writeln':
         return 'writeln()'
+    if k == 'writei':
+        return '%s(%s)' % ('writeln' if s[1] else 'write', opd_src(s[2]))
+    if k == 'writeb':
+        return '%s(%s)' % ('writeln' if s[1] else 'write', bexp_src(s[2]))
+    if k == 'decldiv':
+        return 'int %s = %s %s %s' % (s[1], opd_src(s[3]), DOPS[s[2]], opd_src(s[4]))
+    if k == 'assdiv':
+        return '%s = %s %s %s' % (s[1], opd_src(s[3]), DOPS[s[2]], opd_src(s[4]))
+    if k == 'incdiv':
+        return '%s %s= %s' % (s[1], DOPS[s[2]], opd_src(s[3]))
+    if k == 'call':
+        c = '%s(%s)' % (s[2], ', '.join(opd_src(a) for a in s[3]))
+        if s[1] is None:
+            return c
+        return ('int %s = %s' if s[1][0] == 'decl' else '%s = %s') % (s[1][1], c)
+    if k == 'return':
+        return 'return' if s[1] is None else 'return %s' % opd_src(s[1])
     raise ValueError(s)
 
 
@@ -215,8 +303,12 @@ def block_src(ss):
     return '{ ' + ' '.join(stmt_src(s) for s in ss) + (' ' if ss else '') + '}'
 
 
-def program_src(ss):
-    return 'empty @is_you(int a, int b, int c) %s\n' % block_src(ss)
+def program_src(prog):
+    out = []
+    for (name, rt, params, ss) in prog[1:] + prog[:1]:                # helpers first, entry point last
+        out.append('%s %s%s(%s) %s' % (rt, '@' if name == 'is_you' else '', name,
+                                       ', '.join('int ' + q for q in params), block_src(ss)))
+    return '\n'.join(out) + '\n'
 
 
 def count_nodes(ss, out):
@@ -241,6 +333,10 @@ def nest_depth(ss):
         if subs:
             d = max(d, 1 + max(nest_depth(x) for x in subs))
     return d
+
+
+def prog_depth(prog):
+    return max(nest_depth(f[3]) for f in prog)
 
 
 # ------------------------------------------------------------------------------------ impl side
@@ -278,14 +374,22 @@ class Scope:
         raise Outside('variable ' + name)
 
 
-def convert_body(func, mods):
-    """checked function body -> the model's s-expression"""
+def convert_func(func, mods):
+    """checked function -> the model's s-expression (fun <nparams> S ...)"""
     A, O, B, S, DT = mods
     cmp_names = {O.Lt: 'lt', O.Gt: 'gt', O.Le: 'le', O.Ge: 'ge', O.Eq: 'eq', O.Ne: 'ne'}
     ar_names = {O.Add: 'add', O.Sub: 'sub', O.Mul: 'mul'}
+    div_names = {O.Div: 'div', O.Mod: 'mod'}
     sc = Scope()
-    for prm in ('a', 'b', 'c'):
-        sc.declare(prm, 'i')
+    for prm in func.params:
+        if prm.var.type != DT.INT:
+            raise Outside('parameter type')
+        sc.declare(str(prm.var.name), 'i')
+
+    def fidx(name):
+        if name.startswith('f') and name[1:].isdigit():
+            return int(name[1:])
+        raise Outside('call ' + name)
 
     def opd(o):
         T = type(o)
@@ -325,6 +429,12 @@ def convert_body(func, mods):
             return '(or %s %s)' % (bexp(x.left), bexp(x.right))
         raise Outside('boolean ' + T.__name__)
 
+    def user_call(x):
+        """(f, args) if x is a call of one of the program's functions"""
+        if isinstance(x, A.FuncCall) and str(x.func) not in ('write', 'writeln'):
+            return fidx(str(x.func)), ' '.join(opd(a) for a in x.args)
+        return None
+
     def block(b):
         """a Block in block position (if / loop bodies): the list of its statements"""
         if isinstance(b, B.CodeBlock):
@@ -338,7 +448,13 @@ def convert_body(func, mods):
         if isinstance(s, S.Declaration):
             name = str(s.var.name)
             if s.var.type == DT.INT:
-                r = '(decli %s)' % opd(s.init)
+                uc = user_call(s.init)
+                if uc:
+                    r = '(call decl %d %s)' % uc
+                elif type(s.init) in div_names:
+                    r = '(decldiv %s %s %s)' % (div_names[type(s.init)], opd(s.init.left), opd(s.init.right))
+                else:
+                    r = '(decli %s)' % opd(s.init)
                 sc.declare(name, 'i')
                 return r
             if s.var.type == DT.BOOL:
@@ -347,28 +463,44 @@ def convert_body(func, mods):
                 return r
             raise Outside('declaration of ' + str(s.var.type))
         if isinstance(s, S.IncAssignment):
-            if not isinstance(s.lookup, A.VariableLookup) or s.bin_op not in ar_names:
+            if not isinstance(s.lookup, A.VariableLookup):
                 raise Outside('compound assignment')
             k, i = sc.lookup(str(s.lookup.var.name))
             if k != 'i':
                 raise Outside('compound assignment to non-int')
+            if s.bin_op in div_names:
+                return '(assdiv %d %s (i %d) %s)' % (i, div_names[s.bin_op], i, opd(s.expr))
+            if s.bin_op not in ar_names:
+                raise Outside('compound assignment')
             return '(assi %d (ar %s (i %d) %s))' % (i, ar_names[s.bin_op], i, opd(s.expr))
         if isinstance(s, S.Assignment):
             if not isinstance(s.lookup, A.VariableLookup):
                 raise Outside('assignment target')
             k, i = sc.lookup(str(s.lookup.var.name))
-            return '(assi %d %s)' % (i, opd(s.expr)) if k == 'i' else '(assb %d %s)' % (i, bexp(s.expr))
+            if k == 'i':
+                uc = user_call(s.expr)
+                if uc:
+                    return '(call assign %d %d %s)' % ((i,) + uc)
+                if type(s.expr) in div_names:
+                    return '(assdiv %d %s %s %s)' % (i, div_names[type(s.expr)], opd(s.expr.left), opd(s.expr.right))
+                return '(assi %d %s)' % (i, opd(s.expr))
+            return '(assb %d %s)' % (i, bexp(s.expr))
         if isinstance(s, A.FuncCall):
             name = str(s.func)
             if name == 'writeln' and not s.args:
                 return '(writeln)'
+            if name in ('write', 'writeln') and len(s.args) == 1 and s.args[0].type == DT.INT:
+                return '(writei %d %s)' % (1 if name == 'writeln' else 0, opd(s.args[0]))
+            if name in ('write', 'writeln') and len(s.args) == 1 and s.args[0].type == DT.BOOL:
+                return '(writeb %d %s)' % (1 if name == 'writeln' else 0, bexp(s.args[0]))
             if name == 'write' and len(s.args) == 1:
                 x = s.args[0]
                 if type(x) is A.ByteValue:
                     return '(write (chr %d))' % x.data if (x.is_char and 0 <= x.data <= 255) else '(write (lit %d))' % x.data
                 if type(x) is A.IntToByte:
                     return '(write (byte %s))' % opd(x.expr)
-            raise Outside('call ' + name)
+                raise Outside('write of ' + type(x).__name__)
+            return '(call none %d %s)' % user_call(s)
         if isinstance(s, B.IfBlock):
             return '(if %s (%s) (%s))' % (bexp(s.cond), block(s.body), block(s.else_block))
         if isinstance(s, B.LoopBlock):
@@ -379,23 +511,18 @@ def convert_body(func, mods):
             return '(break)'
         if isinstance(s, S.ContinueStatement):
             return '(continue)'
+        if isinstance(s, S.ReturnStatement):
+            return '(return)' if s.value is None else '(return %s)' % opd(s.value)
         raise Outside('statement ' + type(s).__name__)
 
     def stmts(l):
-        out = []
-        for s in l:
-            if isinstance(s, S.ReturnStatement) and s.value is None:
-                break                                         # the implicit return
-            out.append(stmt(s))
-        return ' '.join(out)
+        return ' '.join(stmt(s) for s in l)
 
-    top = func.body.stmts
-    returns = bool(top) and isinstance(top[-1], S.ReturnStatement)   # absent when the body cannot complete
-    return ('ret ' if returns else 'noret ') + stmts(top)
+    return '(fun %d %s)' % (len(func.params), stmts(func.body.stmts))
 
 
 def impl_run(src, w):
-    """-> ('ok', [lines of hidc], guard constant, model_line) | ('outside', why) | ('error', why)"""
+    """-> ('ok', [lines of hidc], None, model_line, [where]) | ('outside', why) | ('error', why)"""
     from hidc.lexer import SourceCode
     from hidc.parser import parse
     from hidc.ast import Environment, DataType
@@ -405,38 +532,51 @@ def impl_run(src, w):
     try:
         env = Environment.empty()
         prog = parse(SourceCode.from_string(src)).evaluate(env)
-        func = [f for f in prog.func_decls if str(f.name).endswith('is_you')][0]
-        cg = CodeGen(env, word_size=w, stack_size=64, unchecked=False)
+        cg = CodeGen(env, word_size=w, stack_size=STACK, unchecked=False)
         lines = list(cg.gen_lines())
     except CompilerError as e:
         return ('error', '%s: %s' % (type(e).__name__, str(e).split('\n')[0][:100]))
     except Exception as e:                                  # noqa
         return ('error', 'internal %s: %s' % (type(e).__name__, str(e)[:100]))
     try:
-        sx = convert_body(func, (A, O, B, S, DataType))
+        funs = {}
+        for f in prog.func_decls:
+            name = str(f.name).lstrip('@')
+            funs[0 if name == 'is_you' else int(name[1:])] = convert_func(f, (A, O, B, S, DataType))
+        nf = max(funs) + 1
+        # functions the program does not define never occur in calls; keep the numbering dense
+        sx = ' '.join(funs.get(k, '(fun 0 (return))') for k in range(nf))
     except Outside as e:
         return ('outside', str(e))
-    body, guard, state, last_stmt, where = [], None, 0, '', []
+    body, where, state, last = [], [], 0, ''
     for ln in lines:
         t = ln.strip()
         if state == 0:
-            if t == b'func_is_you_0:':
+            if t == b'%section state':
                 state = 1
         elif state == 1:
-            if t.startswith(b'hgeu [r1], '):
-                guard = t[len(b'hgeu [r1], '):].decode()
-            if t == b'no_overflow_0:':
+            if t == b'%section const':
                 state = 2
+            else:
+                body.append(t.decode())
+                where.append('state section')
+        elif state == 2:
+            if t == b'%section code':
+                state = 3
+                body.append('%section code')
+                where.append('')
+            else:
+                return ('outside', 'const section not empty')
         else:
             if t.startswith(b';'):
-                if t.startswith(b'; Statement @'):
-                    last_stmt = t.decode()
+                if t.startswith(b'; Statement @') or t.startswith(b'; Function'):
+                    last = t.decode()
                 continue
-            if t.endswith(b':') and (t.startswith(b'func_') or t == b'all_is_win:'):
+            if t == b'all_is_win:':
                 break
             body.append(t.decode())
-            where.append(last_stmt)
-    return ('ok', body, guard, '%d 3 %s' % (w, sx), where)
+            where.append(last)
+    return ('ok', body, None, 'prog %d %d %s' % (w, STACK, sx), where)
 
 
 # ------------------------------------------------------------------------------------ model side
@@ -503,10 +643,7 @@ def compare(impl, model_text):
     _, body, guard, _, where = impl
     if model_text.startswith('ERROR'):
         return 0, {'model': model_text, 'impl': '', 'where': 'model driver'}
-    parts = model_text.split('\t')
-    need, want = parts[0], parts[1:]
-    if need != 'need %s' % guard:
-        return 0, {'model': need, 'impl': 'hgeu [r1], %s' % guard, 'where': 'entry stack guard'}
+    want = model_text.split('\t')
     if body != want:
         i = 0
         while i < min(len(body), len(want)) and body[i] == want[i]:
@@ -518,8 +655,8 @@ def compare(impl, model_text):
     return len(body), None
 
 
-def check_one(exe, ss, w):
-    r = impl_run(program_src(ss), w)
+def check_one(exe, prog, w):
+    r = impl_run(program_src(prog), w)
     if r[0] != 'ok':
         return r[0], 0, r[1]
     n, d = compare(r, model_all(exe, [r[3]])[0])
@@ -551,6 +688,16 @@ def shrink_candidates(ss):
                 yield ss[:i] + [tuple(t)] + ss[i + 1:]
 
 
+def prog_candidates(prog):
+    """smaller programs: shrink one function body (the last `return e;` of an int function stays)"""
+    for k in range(len(prog) - 1, -1, -1):
+        name, rt, params, ss = prog[k]
+        for q in shrink_candidates(ss):
+            if rt == 'int' and not (q and q[-1][0] == 'return'):
+                continue
+            yield prog[:k] + [(name, rt, params, q)] + prog[k + 1:]
+
+
 def shrink(exe, ss, w, budget=250):
     def bad(q):
         st, _, d = check_one(exe, q, w)
@@ -558,7 +705,7 @@ def shrink(exe, ss, w, budget=250):
     changed = True
     while changed and budget > 0:
         changed = False
-        for q in shrink_candidates(ss):
+        for q in prog_candidates(ss):
             budget -= 1
             if budget <= 0:
                 break
@@ -568,36 +715,78 @@ def shrink(exe, ss, w, budget=250):
     return ss
 
 
+def shrink_failing(ss, w, status, budget=120):
+    """smallest program on which the compiler still fails with the same status"""
+    def sig(q):
+        r = impl_run(program_src(q), w)
+        return (r[0], r[1][:40]) if r[0] != 'ok' else ('ok', '')
+    want = sig(ss)
+    changed = True
+    while changed and budget > 0:
+        changed = False
+        for q in prog_candidates(ss):
+            budget -= 1
+            if budget <= 0:
+                break
+            if sig(q) == want:
+                ss, changed = q, True
+                break
+    return ss
+
+
 # ------------------------------------------------------------------------------------ inputs
 def directed():
-    """small systematic programs: every statement kind alone and in each nesting position"""
-    x = ('v', 'a')
+    """small systematic programs: every statement kind alone and in each nesting position, in the
+    entry point and in helper functions"""
+    x = ('v', 'a0')
+    vb, vc = ('v', 'a1'), ('v', 'a2')
     one = ('n', 1)
     atoms = [
-        ('decli', 'x', ('ar', 'add', x, one)), ('decli', 'x', ('n', 3)), ('decli', 'x', ('v', 'b')),
-        ('decli', 'x', ('ar', 'mul', ('ar', 'add', x, one), ('ar', 'sub', ('v', 'b'), ('v', 'c')))),
-        ('assi', 'a', ('ar', 'mul', x, ('n', 2))), ('assi', 'b', ('n', 7)), ('assi', 'c', x), ('inc', 'a', 'add', ('v', 'b')),
-        ('inc', 'c', 'mul', ('un', 'neg', ('v', 'a'))),
-        ('declb', 'p', ('cmp', 'lt', x, ('v', 'b'))), ('declb', 'p', ('lit', True)), ('declb', 'p', ('not', ('cmp', 'eq', x, one))),
+        ('decli', 'x', ('ar', 'add', x, one)), ('decli', 'x', ('n', 3)), ('decli', 'x', vb),
+        ('decli', 'x', ('ar', 'mul', ('ar', 'add', x, one), ('ar', 'sub', vb, vc))),
+        ('assi', 'a0', ('ar', 'mul', x, ('n', 2))), ('assi', 'a1', ('n', 7)), ('assi', 'a2', x), ('inc', 'a0', 'add', vb),
+        ('inc', 'a2', 'mul', ('un', 'neg', ('v', 'a0'))),
+        ('declb', 'p', ('cmp', 'lt', x, vb)), ('declb', 'p', ('lit', True)), ('declb', 'p', ('not', ('cmp', 'eq', x, one))),
         ('write', ('chr', 'A')), ('write', ('chr', '\\n')), ('write', ('chr', "\\'")), ('write', ('chr', '\\\\')),
         ('write', ('lit', 66)), ('write', ('byte', x)), ('write', ('byte', ('ar', 'add', x, ('n', 65)))),
         ('write', ('byte', ('un', 'neg', x))), ('writeln',),
+        ('writei', False, x), ('writei', True, ('ar', 'add', x, ('ar', 'mul', vb, vc))), ('writei', False, ('n', 7)),
+        ('writeb', False, ('cmp', 'lt', x, vb)), ('writeb', True, ('not', ('cmp', 'eq', x, one))), ('writeb', False, ('lit', True)),
+        ('writeb', True, ('and', ('cmp', 'lt', ('ar', 'add', x, one), ('ar', 'mul', vb, vc)), ('cmp', 'ne', x, one))),
+        ('decldiv', 'x', 'div', x, vb), ('decldiv', 'x', 'mod', ('ar', 'add', x, one), ('ar', 'sub', vb, vc)),
+        ('decldiv', 'x', 'div', ('n', 7), x), ('decldiv', 'x', 'mod', x, ('n', 0)),
+        ('assdiv', 'a0', 'div', vb, ('ar', 'mul', vc, vc)), ('assdiv', 'a1', 'mod', ('un', 'neg', x), ('n', 3)),
+        ('incdiv', 'a2', 'div', vb), ('incdiv', 'a0', 'mod', ('ar', 'add', vb, one)),
+        ('call', None, 'f1', [x, ('ar', 'add', vb, one)]), ('call', ('decl', 'x'), 'f1', [('n', 3), x]),
+        ('call', ('assign', 'a1'), 'f1', [('ar', 'mul', x, vb), ('ar', 'sub', vc, one)]),
+        ('call', None, 'f2', []), ('call', None, 'f3', [x]), ('call', ('decl', 'x'), 'f4', []),
     ]
     c1 = ('cmp', 'lt', x, ('n', 10))
-    c2 = ('and', ('cmp', 'gt', ('ar', 'add', x, one), ('ar', 'mul', ('v', 'b'), ('v', 'c'))), ('not', ('cmp', 'eq', ('v', 'c'), one)))
+    c2 = ('and', ('cmp', 'gt', ('ar', 'add', x, one), ('ar', 'mul', vb, vc)), ('not', ('cmp', 'eq', vc, one)))
     cnt = [0]
 
     def fr(s):
         """the statement with a fresh name if it declares one"""
-        if s[0] in ('decli', 'declb'):
+        if s[0] in ('decli', 'declb', 'decldiv'):
             cnt[0] += 1
-            return (s[0], '%s%d' % (s[1], cnt[0]), s[2])
+            return (s[0], '%s%d' % (s[1], cnt[0])) + tuple(s[2:])
+        if s[0] == 'call' and s[1] and s[1][0] == 'decl':
+            cnt[0] += 1
+            return ('call', ('decl', '%s%d' % (s[1][1], cnt[0])), s[2], s[3])
         return s
+    p0, p1 = ('v', 'p0'), ('v', 'p1')
+    helpers = [
+        ('f1', 'int', ['p0', 'p1'], [('if', ('cmp', 'lt', p0, one), [('return', p1)], None),
+                                     ('call', ('decl', 'r'), 'f1', [('ar', 'sub', p0, one), ('ar', 'mul', p1, ('n', 2))]),
+                                     ('return', ('ar', 'add', ('v', 'r'), one))]),
+        ('f2', 'empty', [], [('writeln',), ('call', None, 'f3', [('n', 5)])]),
+        ('f3', 'empty', ['p0'], [('while', ('cmp', 'gt', p0, ('n', 0)),
+                                  [('writei', True, p0), ('incdiv', 'p0', 'div', ('n', 2)),
+                                   ('if', ('cmp', 'eq', p0, ('n', 3)), [('return', None)], None)])]),
+        ('f4', 'int', [], [('decli', 'k', ('n', 41)), ('call', ('assign', 'k'), 'f1', [('n', 1), ('v', 'k')]), ('return', ('v', 'k'))]),
+    ]
     out = [[s] for s in atoms]
     for s0 in atoms:
-        class _F:                                              # every use of `s` below gets a fresh copy
-            def __getitem__(self, k):
-                return fr(s0)[k]
         for c in (c1, c2):
             out.append([('if', c, [fr(s0)], None)])
             out.append([('if', c, [fr(s0)], [fr(s0)])])
@@ -607,18 +796,23 @@ def directed():
         out.append([fr(s0), ('declb', 'q', c2), ('if', ('bv', 'q'), [('decli', 'y', x), fr(s0)], [('if', c1, [fr(s0)], None)]), ('decli', 'z', one)])
         out.append([('while', c1, [('while', c2, [fr(s0), ('break',)]), ('continue',)])])
         out.append([('for', None, None, None, [fr(s0), ('break',)])])
-    return out
-    for s in []:
-        for c in (c1, c2):
-            out.append([('if', c, [s], None)])
-            out.append([('if', c, [s], [s])])
-            out.append([('while', c, [s, ('if', c1, [('break',)], None), ('if', c2, [('continue',)], [s])])])
-            out.append([('for', ('decli', 'i', ('n', 0)), ('cmp', 'lt', ('v', 'i'), ('n', 3)), ('inc', 'i', 'add', one), [s])])
-            out.append([('block', [s, ('block', [s])]), s])
-        out.append([s, ('declb', 'q', c2), ('if', ('bv', 'q'), [('decli', 'y', x), s], [('if', c1, [s], None)]), ('decli', 'z', one)])
-        out.append([('while', c1, [('while', c2, [s, ('break',)]), ('continue',)])])
-        out.append([('for', None, None, None, [s, ('break',)])])
-    return out
+        out.append([('if', c1, [fr(s0), ('return', None)], None), fr(s0)])
+    progs = [[('is_you', 'empty', ['a0', 'a1', 'a2'], ss)] + helpers for ss in out]
+    # the same statements inside a helper (other frame layout: two parameters)
+    ren = {'a0': 'p0', 'a1': 'p1', 'a2': 'p0'}
+
+    def rn(t):
+        if isinstance(t, tuple):
+            if len(t) == 2 and t[0] == 'v':
+                return ('v', ren.get(t[1], t[1]))
+            return tuple(rn(u) for u in t)
+        if isinstance(t, list):
+            return [rn(u) for u in t]
+        return ren.get(t, t) if isinstance(t, str) else t
+    for ss in out[:len(atoms)]:
+        h = ('f5', 'empty', ['p0', 'p1'], rn(ss))
+        progs.append([('is_you', 'empty', ['a0', 'a1', 'a2'], [('call', None, 'f5', [x, vb])])] + helpers + [h])
+    return progs
 
 
 # ------------------------------------------------------------------------------------ run
@@ -633,15 +827,17 @@ def run(tier, seed, workdir):
     nrand = 2000 if quick else 8000
     progs = directed()
     for k in range(nrand):
-        progs.append(Gen(rng, rng.choice([1, 2, 2, 3] if quick else [1, 2, 3, 3, 4])).program())
+        progs.append(gen_program(rng, rng.choice([1, 2, 2, 3] if quick else [1, 2, 3, 3, 4])))
 
     dist = {'statements': collections.Counter(), 'nesting': collections.Counter(), 'word': collections.Counter(),
-            'status': collections.Counter(), 'lines_per_program': collections.Counter()}
-    jobs = []
+            'status': collections.Counter(), 'lines_per_program': collections.Counter(), 'functions': collections.Counter()}
+    jobs, failed = [], []
     for k, ss in enumerate(progs):
         src = program_src(ss)
-        count_nodes(ss, dist['statements'])
-        dist['nesting'][nest_depth(ss)] += 1
+        for f in ss:
+            count_nodes(f[3], dist['statements'])
+        dist['nesting'][prog_depth(ss)] += 1
+        dist['functions'][len(ss)] += 1
         for w in words:
             r = impl_run(src, w)
             dist['status'][r[0]] += 1
@@ -649,15 +845,19 @@ def run(tier, seed, workdir):
                 jobs.append((k, w, r))
                 dist['word'][w] += 1
                 dist['lines_per_program'][min(len(r[1]) // 50 * 50, 500)] += 1
-            elif len(log) < 20:
-                log.append('%s on %r: %s' % (r[0], src.strip()[:200], r[1]))
+            else:
+                # every generated program is in F_stmt and well typed by construction: a rejection or a
+                # crash of the compiler is a difference from the model, which lowers it
+                if len(log) < 20:
+                    log.append('%s on %r: %s' % (r[0], src.strip()[:200], r[1]))
+                failed.append((k, w, r))
     outs = model_all(exe, [r[3] for (_, _, r) in jobs])
     lines_compared, disagreements, seen_bad, samples, distinct = 0, [], set(), [], set()
     for (k, w, r), mt in zip(jobs, outs):
         n, d = compare(r, mt)
         lines_compared += n
-        distinct.add(r[3].split(' ', 2)[2])
-        if len(samples) < 3 and nest_depth(progs[k]) >= 2 and n:
+        distinct.add(r[3].split(' ', 3)[3])
+        if len(samples) < 3 and prog_depth(progs[k]) >= 2 and len(progs[k]) >= 2 and n:
             samples.append({'source': program_src(progs[k]).strip(), 'w': w, 'model_input': r[3], 'lines': n})
         if d is not None and k not in seen_bad and len(disagreements) < 8:
             seen_bad.add(k)
@@ -669,6 +869,14 @@ def run(tier, seed, workdir):
                                   'detail': d2, 'original': program_src(progs[k]).strip()[:600]})
         elif d is not None:
             seen_bad.add(k)
+    for (k, w, r) in failed:
+        if k not in seen_bad and len(disagreements) < 8:
+            small = shrink_failing(progs[k], w, r[0])
+            rs = impl_run(program_src(small), w)
+            disagreements.append({'input': program_src(small).strip(), 'w': w, 'model': 'in F_stmt: lowered by lower_body',
+                                  'impl': '%s: %s' % (rs[0], rs[1]) if rs[0] != 'ok' else '%s: %s' % (r[0], r[1]),
+                                  'detail': {'where': 'compilation'}, 'original': program_src(progs[k]).strip()[:600]})
+        seen_bad.add(k)
     dist['programs_disagreeing'] = len(seen_bad)
     return {
         'evaluations': len(jobs),
